@@ -341,6 +341,35 @@ impl FilterPolicy for NoFilteringPolicy {
     }
 }
 
+/// A policy whose filters carry a format version: it writes `writes` and can only read `reads`;
+/// a filter of another version is reported as an error (which must mean "go and look", never
+/// "the key is not there").
+#[derive(Debug)]
+struct VersionedPolicy {
+    writes: u8,
+    reads: u8,
+}
+
+impl FilterPolicy for VersionedPolicy {
+    fn get_name(&self) -> String {
+        "Versioned.HashList".to_string()
+    }
+    fn create_filter(&self, keys: &[Vec<u8>]) -> Vec<u8> {
+        let mut out = vec![self.writes];
+        for k in keys {
+            out.extend_from_slice(&HashListPolicy::hash(k).to_le_bytes());
+        }
+        out
+    }
+    fn key_may_match(&self, key: &[u8], serialized_filter: &[u8]) -> Result<bool, raindb::filter_policy::FilterPolicyError> {
+        if serialized_filter.first() != Some(&self.reads) {
+            return Err(raindb::filter_policy::FilterPolicyError::Parse(format!("filter format {:?} is not format {}", serialized_filter.first(), self.reads)));
+        }
+        let h = HashListPolicy::hash(key).to_le_bytes();
+        Ok(serialized_filter[1..].chunks(4).any(|c| c == h))
+    }
+}
+
 /// The name of a policy is stored with its filter block so that a table is never consulted
 /// through filters some other policy wrote: tables are built under one policy and read under a
 /// policy of another name (sorting before or after the writer's), and every stored entry must
@@ -365,7 +394,8 @@ fn case_foreign_policy(out: &mut CaseOut, seed: u64, idx: u64) {
     let bloom = |bits: usize| -> Arc<dyn FilterPolicy> { Arc::new(BloomFilterPolicy::new(bits)) };
     let list = |name: &str| -> Arc<dyn FilterPolicy> { Arc::new(HashListPolicy { name: name.to_string() }) };
     // names sorting before and after "RainDB.BloomFilter"
-    let (writer, reader, pair): (Arc<dyn FilterPolicy>, Arc<dyn FilterPolicy>, &str) = match idx % 7 {
+    let (writer, reader, pair): (Arc<dyn FilterPolicy>, Arc<dyn FilterPolicy>, &str) = match idx % 8 {
+        7 => (Arc::new(VersionedPolicy { writes: 1, reads: 1 }), Arc::new(VersionedPolicy { writes: 2, reads: 2 }), "same-name/reader-reports-an-error-for-the-stored-filters"),
         6 => (Arc::new(NoFilteringPolicy), Arc::new(NoFilteringPolicy), "policy-with-empty-filters"),
         0 => (bloom(10), list("Audit.HashList"), "bloom-written/read-by-earlier-name"),
         1 => (bloom(10), list("Zeta.HashList"), "bloom-written/read-by-later-name"),
